@@ -207,7 +207,7 @@ PROPS = {
         streams=["meta"],
         level="proof",
         technique="Lean 4 proofs about the wrapper around secretbox with seal/open as parameters: key validation iff, layout (nonce ‖ box, +40 bytes), round trip under the open∘seal contract, refusals surface as errors, distinct nonces give distinct stored values; tied by a differential run incl. every single-bit modification of stored ciphertexts with x/crypto's own verdict as oracle (PARTIAL: confidentiality and authenticity are cryptographic assumptions, tested, not proved)",
-        level_text="PARTIAL. Proved for all inputs: C19_validateKey_iff (missing, wrongly sized and all-zero keys are refused, and only those) and that both directions refuse them; C19_layout; C19_roundtrip (given open k n (seal k n m) = some m); C19_refusal_is_error and C19_short_ciphertext (whatever secretbox refuses — wrong key, any modified ciphertext or nonce — is an error, never data); C19_distinct_nonce_distinct_value; C19_only_strings_and_bytes. Not proved, named: that XSalsa20-Poly1305 hides the plaintext and rejects modifications, and that crypto/rand nonces do not repeat. Go: 26 key shapes; 6 plaintexts × right/wrong/nil/zero/short keys × every single-bit modification, truncation and extension of the stored value; round trips in memory and through sealed delegations and invocations (CBOR, JSON); plaintext-substring search in stored values and sealed tokens; repeated encryption distinctness; stored length.",
+        level_text="PARTIAL. Proved for all inputs: C19_validateKey_iff (missing, wrongly sized and all-zero keys are refused, and only those) and that both directions refuse them; C19_layout; C19_roundtrip (given open k n (seal k n m) = some m); C19_refusal_is_error and C19_short_ciphertext (whatever secretbox refuses — wrong key, any modified ciphertext or nonce — is an error, never data); C19_distinct_nonce_distinct_value; C19_only_strings_and_bytes; C19_entropy_failure_is_error and C19_nonce_is_what_was_drawn (a failing or short entropy source is an error, the stored nonce is what was drawn). Not proved, named: that XSalsa20-Poly1305 hides the plaintext and rejects modifications, and that crypto/rand nonces do not repeat. Go: 26 key shapes; 6 plaintexts × right/wrong/nil/zero/short keys × every single-bit modification, truncation and extension of the stored value; round trips in memory and through sealed delegations and invocations (CBOR, JSON); plaintext-substring search in stored values and sealed tokens; repeated encryption distinctness; stored length; crypto/rand.Reader replaced by a source failing after 0…30 bytes × good/missing/zero/short keys.",
         level_note="Trusted: Lean kernel; Model/Meta.lean renders meta.go/secretbox.go by hand (checked differentially); x/crypto/nacl/secretbox and crypto/rand are dependencies: secretbox.Open's verdict is computed by the harness and given to the model as an oracle. The bit-flip sweep is a TEST of the wrapper wiring, not a proof of authenticity.",
         assumptions=["INT-CTXT and IND-CPA of XSalsa20-Poly1305; unpredictability/non-repetition of crypto/rand nonces"],
     ),
@@ -217,7 +217,7 @@ PROPS = {
         extra=[dict(name="racecheck", pkg="./cmd/racecheck", build_flags=["-race"], timeout=600,
                     what="read-only workload of the immut stream on shared tokens from 8 goroutines under the Go race detector (a TEST of sampled schedules, supporting evidence only)")],
         technique="Lean 4 proofs: frame theorem for every modelled read-only operation, repeatability, and — for arbitrary schedules of threads whose steps never write shared memory — that shared memory stays unchanged and every step sees the initial state (induction over the schedule); tied by before/after snapshots of the observable token state for every insertion order of the keys, and by concurrent versus alone results; race detector run as supporting test (PARTIAL: the Go memory model is not modelled)",
-        level_text="PARTIAL. Proved: C20_frame (no read-only operation changes the token's argument/metadata key order or values), C20_repeatable, C20_iter_order_stable, C20_schedule_shared and C20_schedule_step_input (for EVERY interleaving of read-only threads the shared state is unchanged and each step reads the initial state, so each thread computes what it computes alone and no two steps conflict), C20_ops_are_readonly_steps. Go: for every insertion order of ≤ 4 (5 thorough) argument keys × 3 metadata orders × 7 read-only operations on constructed and decoded invocations and their root delegation, the Iter() order afterwards and the operation's output order are compared with the model; every operation from 8 goroutines on the same tokens must return what it returns alone; the same workload runs under `go build -race`.",
+        level_text="PARTIAL. Proved: C20_frame (no read-only operation — incl. ExecutionAllowedWithArgsHook and a check with another loader — changes the token's argument/metadata key order or values, its proof links, or the spare capacity of a shared delegation's policy slice), C20_history_independent (what an operation returns does not depend on the read-only operations that ran before: no memoised state), C20_frame_spare, C20_repeatable, C20_iter_order_stable, C20_schedule_shared and C20_schedule_step_input (for EVERY interleaving of read-only threads the shared state is unchanged and each step reads the initial state, so each thread computes what it computes alone and no two steps conflict), C20_ops_are_readonly_steps. Go: for every insertion order of ≤ 4 (5 thorough) argument keys × 3 metadata orders × 9 read-only operations on constructed and decoded invocations and the two shared delegations of their chain (the leaf's policy slice has spare capacity), every ORDERED PAIR of operations on one fresh token (history independence), the token as seen by a re-entrant reader during ExecutionAllowedWithArgsHook, the Iter() order afterwards and the operation's output order are compared with the model; every operation from 8 goroutines on the same never-touched tokens must return what it returns alone on a twin; the same workload runs under `go build -race`.",
         level_note="Trusted: Lean kernel; Model/Immut.lean lists the token memory that read-only methods touch (the shared Keys slices and value maps) and renders each method as a state transformer — which methods exist and what they touch is tied differentially, not proved. NOT exhibited by the model: the Go memory model (visibility, tearing, compiler reordering); the race detector and the 8-goroutine runs are tests of sampled schedules.",
         assumptions=["the Go memory model is outside the model; data-race freedom is argued from the empty write footprint (proved on the model) plus race-detector runs (tests)"],
     ),
